@@ -42,6 +42,9 @@ pub fn wire_samples(ch: u8, n: usize, pattern: u64) -> Vec<i16> {
             1 => if i % 7 == 3 { i16::MIN } else if i % 7 == 5 { 32764 } else { WIRE_BASELINE + ch as i16 },
             2 => i16::MIN,
             3 => i16::MAX,
+            // flat negative pedestals: the sum of the first 64 samples is a negative exact multiple of 64
+            5 => -8,
+            6 => -2048,
             _ => WIRE_BASELINE,
         })
         .collect()
